@@ -169,26 +169,27 @@ _VAR_RE = re.compile(r"\{\{-?\s*([^\W\d]\w*)\s*-?\}\}")
 _HEAD_RE = re.compile(r"(?:^|,)\s*([^\W\d]\w*)")
 
 
-EXCLUDED_LABEL = "excluded_folded_object_address"
+EXCLUDED_LABEL = "excluded_folded_address_text"
 _ADDR_RE = re.compile(r" at 0x[0-9a-fA-F]+")
 
 
-def _folds_object_address(ast, env, nodes):
-    """Known finding (see known_findings.d/C30.json): an output expression that is constant and evaluates to an
-    object printed with Python's default repr (the iterator of ``[1]|reverse`` / ``|batch`` / ``|select``, the bound
-    method ``'a'.upper``) is folded into the generated source, memory address included.  True when the template has
-    such an output expression; these templates are excluded from the generated search."""
+def _folds_address_text(ast, env, nodes):
+    """Known finding (known_findings.d/C30.json): a constant subexpression that evaluates to an object with Python's
+    default repr (the iterator of ``[1]|reverse`` / ``|batch`` / ``|select``, the bound method ``'a'.upper``) and is
+    turned into *text* at compile time (``~``, ``|string``, ``|e``, ``|join``, ``|format`` ...) is folded into the
+    generated source, memory address included.  True when some expression of the template is a compile-time constant
+    whose value is a string holding such an address; these templates are excluded from the generated search.
+    (An output expression whose constant value is the object itself is F50, fixed, and is *not* excluded.)"""
     eval_ctx = nodes.EvalContext(env, None)
-    for out in ast.find_all(nodes.Output):
-        for child in out.nodes:
-            if isinstance(child, (nodes.TemplateData, nodes.Const, nodes.Name)):
-                continue
-            try:
-                text = str(child.as_const(eval_ctx))
-            except Exception:  # noqa: BLE001 - not a compile-time constant (Impossible) or not evaluable: not folded
-                continue
-            if _ADDR_RE.search(text):
-                return True
+    for node in ast.find_all(nodes.Expr):
+        if isinstance(node, (nodes.Const, nodes.TemplateData, nodes.Name, nodes.Literal)):
+            continue
+        try:
+            v = node.as_const(eval_ctx)
+        except Exception:  # noqa: BLE001 - not a compile-time constant (Impossible) or not evaluable: never folded
+            continue
+        if isinstance(v, str) and _ADDR_RE.search(v):
+            return True
     return False
 
 
@@ -216,7 +217,7 @@ def classify(case):
     except RecursionError:
         labels.add("does_not_parse")
         return False, labels
-    if _folds_object_address(ast, _env_for(o), nodes):
+    if _folds_address_text(ast, _env_for(o), nodes):
         labels.add(EXCLUDED_LABEL)
     nt = False
     names = {n.name for n in ast.find_all(nodes.Filter)} | {"is " + n.name for n in ast.find_all(nodes.Test)}
